@@ -28,6 +28,7 @@ pub fn profile(name: &str) -> Option<GenFn> {
         "stoprace" => genp::stoprace,
         "bigburst" => genp::bigburst,
         "joinrace" => genp::joinrace,
+        "svcrestart" => genp::svcrestart,
         _ => return None,
     })
 }
